@@ -32,6 +32,8 @@ type H struct {
 	comps    map[int]*regComp // by name
 	compByID map[uint8]*regComp
 	compOrd  []int
+	shadow   *shadowWorld
+	regLog   []int // registration order: n >= 0 static component n, n < 0 filler type -n-1
 	fillers  int
 
 	filters map[int]*filterObj
@@ -119,6 +121,8 @@ func (h *H) resetWorld(cap_, rel, maxc int, snap bool) {
 	h.comps = map[int]*regComp{}
 	h.compByID = map[uint8]*regComp{}
 	h.compOrd = nil
+	h.regLog = nil
+	h.shadow = nil
 	h.fillers = 0
 	h.filters = map[int]*filterObj{}
 	h.obs = map[int]*obsObj{}
@@ -592,12 +596,23 @@ func (h *H) newEpoch() {
 
 // ---------- callbacks ----------
 
+// shadowStep runs the fixed workload on the independent second world (see shadow.go).
+func (h *H) shadowStep() bool {
+	if h.shadow == nil {
+		h.shadow = newShadow()
+	}
+	return h.shadow.step()
+}
+
 func (h *H) runProbe(self int, e ecs.Entity, p string) {
 	parts := strings.Split(p, ":")
 	switch parts[0] {
 	case "look":
 		r := logRec{kind: "look", locked: h.w.IsLocked()}
 		r.alive = h.w.Alive(e)
+		if !h.shadowStep() {
+			r.s = "!BAD shadow world"
+		}
 		if r.alive {
 			if class := try(func() { r.comps = h.readEntity(e, nil) }); class != "" {
 				r.comps = nil
@@ -761,6 +776,9 @@ func (h *H) batchFn(a *compArgs, write bool) func(e ecs.Entity, ps []valued, nam
 				continue
 			}
 			r.comps = append(r.comps, cv{name: nm, v: p.GetV(), bad: !p.Check()})
+		}
+		if !h.shadowStep() {
+			r.comps = append(r.comps, cv{name: -1, bad: true})
 		}
 		h.log = append(h.log, r)
 		if write {
